@@ -300,7 +300,7 @@ def _transform_part(run, rng, lines, meta, thorough):
         if kq is None or herr > 1e-9:
             run.broke("correspondence", "phases of the implementation's shortest vectors do not have the structural form assumed by the theorems (err %.3g)" % herr, info)
         else:
-            lines.append("latwf %d %d %d %d %s %s %s" % (npa, ns, N, N, U.ints(s2pp), U.ints(kq), U.ints(R)))
+            lines.append("latwf %d %d %d %d %s %s %s %s" % (npa, ns, N, N, U.ints(s2pp), U.ints(p2s), U.ints(kq), U.ints(R)))
             meta.append(("lattice-certificate", info, lambda line: None if line == "true" else "Lat.wf = %s on the implementation's tables" % line))
 
         # ---- oracle: the round trips on the implementation
